@@ -445,6 +445,16 @@ pub fn draw(prefix: &str, bytes64: &[u8; 64]) -> Tid {
     })
 }
 
+thread_local! {
+    /// Optional consistency oracle installed by the harness: given a condition, says whether the path
+    /// condition recorded so far already forces its outcome.  Consulted only after the path has deviated
+    /// from the shadow values (a flipped or forced decision), where the shadow outcome may be infeasible.
+    pub static CONSISTENCY: RefCell<Option<Box<dyn Fn(&F) -> Option<bool>>>> = RefCell::new(None);
+}
+pub fn set_consistency_oracle(f: Option<Box<dyn Fn(&F) -> Option<bool>>>) {
+    CONSISTENCY.with(|c| *c.borrow_mut() = f);
+}
+
 /// Record a decision. Follows the prefix if one is installed for this position, the shadow values otherwise.
 pub fn decide(f: F) -> bool {
     match f {
@@ -452,29 +462,52 @@ pub fn decide(f: F) -> bool {
         F::False => return false,
         _ => {}
     }
-    with(|a| {
+    enum Pre {
+        Done(bool),
+        Go { shadow: bool, imposed: Option<bool>, deviated: bool },
+    }
+    let pre = with(|a| {
         if let F::EqZ(t) = &f {
             if let Node::Const(c) = &a.nodes[*t as usize] {
-                return *c == fq::ZERO;
+                return Pre::Done(*c == fq::ZERO);
             }
         }
         let shadow = a.eval(&f);
         let pos = a.decisions.len();
-        let (outcome, forced) = if pos < a.prefix.len() {
-            (a.prefix[pos], true)
+        let imposed = if pos < a.prefix.len() {
+            Some(a.prefix[pos])
         } else if let Some(b) = a.force_queue.pop_front() {
-            (b, true)
-        } else if let Some(b) = a.force {
-            (b, true)
+            Some(b)
         } else {
-            (shadow, false)
+            a.force
         };
+        let deviated = a.decisions.iter().any(|d| d.outcome != d.shadow);
+        Pre::Go { shadow, imposed, deviated }
+    });
+    let (shadow, imposed, deviated) = match pre {
+        Pre::Done(b) => return b,
+        Pre::Go { shadow, imposed, deviated } => (shadow, imposed, deviated),
+    };
+    let (outcome, forced) = match imposed {
+        Some(b) => (b, true),
+        None => {
+            let mut o = shadow;
+            if deviated {
+                let forced_by_pc = CONSISTENCY.with(|c| c.borrow().as_ref().and_then(|cb| cb(&f)));
+                if let Some(b) = forced_by_pc {
+                    o = b;
+                }
+            }
+            (o, false)
+        }
+    };
+    with(|a| {
         a.decisions.push(Decision { cond: f, outcome, shadow, forced, label: a.cur_label });
         if a.decisions.len() > a.max_decisions {
             panic!("symex: decision budget exceeded ({})", a.max_decisions);
         }
-        outcome
-    })
+    });
+    outcome
 }
 
 pub fn eq_formula(x: Tid, y: Tid) -> F {
